@@ -15,7 +15,7 @@
 From Coq Require Import List NArith Bool String.
 Import ListNotations.
 Require Import RV.Lib.PyStr RV.Model.Path RV.Model.Url.
-Require Import RV.Proofs.PathProofs RV.Proofs.UrlPath RV.Proofs.UrlParse RV.Proofs.C18Final.
+Require Import RV.Proofs.PathProofs RV.Proofs.UrlPath RV.Proofs.UrlParse RV.Proofs.UrlBase RV.Proofs.C18Final.
 Require RV.Gen.UrlGen.
 Open Scope list_scope. Open Scope N_scope.
 
@@ -134,6 +134,14 @@ Theorem C18_same_prefix_rule : forall base pathinfo, nonempty base = true ->
   match strip_base base (sanitize_path pathinfo) with DOk r => r | _ => sanitize_path pathinfo end.
 Proof. exact c18_request_path_strip. Qed.
 Print Assumptions C18_same_prefix_rule.
+
+(* The base prefix _handle_request selects (from [server] script_name -- which Application.__init__ only accepts when
+   cfg_ok: empty, or leading and no trailing slash --, X-Script-Name or SCRIPT_NAME) is "" or starts with "/" and does
+   not end with "/"; anything else is answered 400 / 500 before a handler runs. *)
+Theorem C18_base_prefix_shape : forall cfg rp x s b, cfg_ok cfg -> select_base cfg rp x s = BOk b ->
+  b = [] \/ (startswith b [slash] = true /\ endswith b [slash] = false).
+Proof. exact c18_base_prefix_shape. Qed.
+Print Assumptions C18_base_prefix_shape.
 
 (* Witnesses of the repaired defects (the code before the fixes, replayed by checks/C18.py on the real server). *)
 Theorem C18_witness_move_unquote :
